@@ -575,7 +575,7 @@ func C17() *sim.Check {
 	}
 	ck := &sim.Check{
 		Prop: "C17", Harness: "h_determ", Level: "exploration",
-		Rule:        "A run draws a font (up to 40 glyphs), metrics (up to 30 glyphs, several ligatures per glyph, kerning), a CMap file with 2-4 CMaps and a program; every operation (Font.Write x 4 formats, WritePDF, Metrics.Write, type1.Read of each written file, afm.Read, ReadCMap, Execute, the order-sensitive queries) runs under the canonical sorted map order with a frozen simulated clock, then under reverse, rotated, two random (Fisher-Yates from the tape), a single-adjacent-swap and Go's native order with a jumping clock and heap churn in between, and once more in a second OS process (other map hash seed, other addresses, another local time zone) under Go's native order; all outputs must be byte-identical. The map-order and clock seams are injected into a scratch copy of the current tree by tools/instrument (13 sites today; recomputed on every run). distinct_nontrivial counts distinct (reference output hash, operation, order mode, permutation draws) executions in which at least one map with >= 2 entries was iterated in a permuted order.",
+		Rule:        "A run draws a font (up to 40 glyphs), metrics (up to 30 glyphs, several ligatures per glyph, kerning), a CMap file with 2-4 CMaps and a program; every operation (Font.Write x 4 formats, WritePDF, Metrics.Write, type1.Read of each written file, afm.Read, ReadCMap, Execute, the order-sensitive queries) runs under the canonical sorted map order with a frozen simulated clock, then under reverse, rotated, two random (Fisher-Yates from the tape), a single-adjacent-swap and Go's native order with a jumping clock and heap churn in between, and once more in a second OS process (other map hash seed, other addresses, another local time zone) under Go's native order; all outputs must be byte-identical. The map-order and clock seams are injected into a scratch copy of the current tree by tools/instrument (13 sites today; recomputed on every run). distinct_nontrivial counts distinct (reference output hash, operation, order mode, permutation draws) executions in which at least one map with >= 2 entries was iterated in a permuted order. Further operations: 6-25 look-alike fonts (same structure, shifted outlines) built afresh, written and dropped with collections in between; programs / CMap files run over their budget (the shared error value) four times; ReadCMap x40/x700 and type1.Read x12/x60 on the same bytes; fonts only a foreign producer writes (composites incl. 250-340 glyphs, lenIV 0-8, Subrs, fractional widths without .notdef, FontInfo keys differing in case, two names for one dictionary, non-numeric FontMatrix). If the instrumenter finds go statements in the library (none on the tree as pinned), every operation also runs twice as sole caller under the task scheduler with tape-drawn interleavings of the library's own goroutines; timers set by the library fire at once or never, by a draw.",
 		Assume:      []string{"map iteration hidden inside dependencies and not reached through maps.Keys/Values (reflection) is outside the seam; the second-process repetition samples Go's native order for it", "PostScript forall over a dictionary is only used with an order-insensitive body", "metrics bounding boxes are well-formed (LL <= UR): rect.Extend is order-dependent for inverted boxes, which is outside the representable domain"},
 		RealStub:    map[string]any{"real": []string{"all go-postscript packages, seam-instrumented copy of the current working tree (map range / maps.Keys order and time.Now routed through simrt)", "text/template, sort, x/exp/maps"}, "stub": []string{"map iteration order oracle", "clock", "heap churn"}},
 		Batches:     []*sim.Batch{b},
